@@ -455,3 +455,73 @@ example : hashInt 2147483648 = none ∧ hashInt (-2147483649) = none
     ∧ hashInt 1234 = some [0xd2, 0x04, 0, 0] ∧ hashInt (-1) = some [0xff, 0xff, 0xff, 0xff] := by decide
 
 end Ems.C16
+
+namespace Ems.C16
+open Ems Ems.CacheKey
+
+/-! ## the order of the hashed fields is that of the code (T)
+
+`harness/tables.py` translates the loop body of `Convention.hash_geometry`, the body of `make_cache_key` and the three
+hash helpers from their ASTs into (hash function, what is hashed) lists, in statement order, regenerated into
+`Gen/Tables.lean` on every run (a statement of any other form becomes an `unknown` entry).  The model's own
+declaration of its field order (`Core/CacheKey.lean`: `hashVarFields`, `trailerFields`, …) equals the generated lists,
+and the model's streams are the concatenation of the declared pieces in the declared order — so swapping, dropping or
+adding a hashed field in emsarray breaks a named obligation. -/
+
+theorem hash_fields_generated : Ems.Gen.hashGeometryFields = hashVarFields := by decide +kernel
+
+theorem hash_loop_generated : Ems.Gen.hashGeometryOver = hashGeometryOver := by decide +kernel
+
+theorem trailer_generated :
+    Ems.Gen.cacheKeyTrailer = trailerFields ∧ Ems.Gen.makeCacheKeyCalls = makeCacheKeyFields := by
+  decide +kernel
+
+theorem hash_helpers_generated :
+    Ems.Gen.hashStringCalls = hashStringFields ∧ Ems.Gen.hashAttributesCalls = hashAttrsFields
+      ∧ Ems.Gen.hashIntCalls = hashIntFields := by
+  decide +kernel
+
+theorem fieldBytes_source (r : GeomRec) (v : VarField) : fieldBytes r v.source = v.bytes r := by
+  cases v <;> rfl
+
+theorem hashVar_eq_fields (r : GeomRec) : hashVar r = seqBytes (hashVarFields.map (fieldBytes r)) := by
+  have h : hashVarFields.map (fieldBytes r) = hashVarOrder.map (VarField.bytes r) := by
+    simp [hashVarFields, List.map_map, Function.comp_def, fieldBytes_source]
+  rw [h]
+  simp only [hashVarOrder, List.map, VarField.bytes, seqBytes, hashVar]
+  cases hashString r.name <;> cases hashString r.dtype <;> cases hashInt (Ems.size r.shape)
+    <;> cases shapeBytes r.shape <;> cases hashAttrs r.attrCount r.attrBlob <;> simp
+
+theorem trailerFieldBytes_source (c : ConvId) (ver : String) (v : TrailerField) :
+    trailerFieldBytes c ver v.source = v.bytes c ver := by
+  cases v <;> rfl
+
+theorem trailer_eq_fields (c : ConvId) (ver : String) :
+    trailer c ver = seqBytes (trailerFields.map (trailerFieldBytes c ver)) := by
+  have h : trailerFields.map (trailerFieldBytes c ver) = trailerOrder.map (TrailerField.bytes c ver) := by
+    simp [trailerFields, List.map_map, Function.comp_def, trailerFieldBytes_source]
+  rw [h]
+  simp only [trailerOrder, List.map, TrailerField.bytes, seqBytes, trailer]
+  cases hashString c.module <;> cases hashString c.className <;> cases hashString ver <;> simp
+
+theorem hashGeometry_eq_seq (rs : List GeomRec) : hashGeometry rs = seqBytes (rs.map hashVar) := by
+  induction rs with
+  | nil => rfl
+  | cons r rs ih => simp only [hashGeometry, List.map, seqBytes, ih]
+
+theorem cacheStream_eq_seq (rs : List GeomRec) (c : ConvId) (ver : String) :
+    cacheStream rs c ver = seqBytes [hashGeometry rs, trailer c ver] := by
+  simp only [cacheStream, seqBytes]
+  cases hashGeometry rs <;> cases trailer c ver <;> simp
+
+theorem hashChars_eq_seq (cs : List Char) :
+    hashChars cs = seqBytes [hashInt cs.length, some (utf8Chars cs)] := by
+  simp only [hashChars, seqBytes]
+  cases hashInt cs.length <;> simp
+
+theorem hashAttrs_eq_seq (count : Nat) (blob : Bytes) :
+    hashAttrs count blob = seqBytes [hashInt 4, hashInt count, hashInt blob.length, some blob] := by
+  simp only [hashAttrs, seqBytes]
+  cases hashInt 4 <;> cases hashInt count <;> cases hashInt blob.length <;> simp
+
+end Ems.C16
